@@ -333,8 +333,8 @@ func (eg *EventGraph) Outcomes(fn *ssa.Function) []outcome {
 			out = append(out, outcome{Kind: "resume", Path: ps, In: fn, Chain: []*PathSum{ps}})
 		default:
 			for _, o := range eg.Outcomes(emitCall.Fn) {
-				o2 := o
-				o2.Chain = append([]*PathSum{ps}, o.Chain...)
+				o2 := eg.instantiate(o, emitCall.Fn, emitCall.Args)
+				o2.Chain = append([]*PathSum{ps}, o2.Chain...)
 				out = append(out, o2)
 			}
 		}
@@ -492,4 +492,168 @@ func (eg *EventGraph) Traces(fn *ssa.Function, followResume string) []Trace {
 	}
 	walk(fn, nil, nil, rstate{no: map[string]bool{}}, 0)
 	return out
+}
+
+// ---------------------------------------------------------------------------------------
+// instantiation of a callee's outcome for one call site: a helper that takes the street or the
+// event as a parameter (enterRound(round, event)) is read with the arguments of the call.
+
+func substVal(v *Val, m map[string]*Val) *Val {
+	if v == nil || len(m) == 0 {
+		return v
+	}
+	repl := func(s string) string {
+		for k, a := range m {
+			if strings.Contains(s, k) {
+				s = strings.ReplaceAll(s, k, a.String())
+			}
+		}
+		return s
+	}
+	switch v.K {
+	case KAff:
+		out := affConst(v.A.C)
+		for t, c := range v.A.T {
+			if a, ok := m[t]; ok {
+				out = out.add(a.asAff(), c)
+			} else {
+				out = out.add(affTerm(repl(t)), c)
+			}
+		}
+		nv := vAff(out)
+		nv.Typ = v.Typ
+		return nv
+	case KSym:
+		if a, ok := m[v.S]; ok {
+			return a
+		}
+		nv := *v
+		nv.S = repl(v.S)
+		if len(v.Args) > 0 {
+			nv.Args = make([]*Val, len(v.Args))
+			for i, a := range v.Args {
+				nv.Args[i] = substVal(a, m)
+			}
+		}
+		return &nv
+	case KAddr:
+		nv := *v
+		nv.S = repl(v.S)
+		return &nv
+	case KAtom:
+		at := *v.At
+		if at.A != nil {
+			at.A = substVal(vAff(at.A), m).asAff()
+		}
+		at.L, at.R = repl(at.L), repl(at.R)
+		// an "is" atom whose two sides became literals is decided
+		nv := *v
+		nv.At = &at
+		return &nv
+	case KTuple:
+		nv := *v
+		nv.Args = make([]*Val, len(v.Args))
+		for i, a := range v.Args {
+			nv.Args[i] = substVal(a, m)
+		}
+		return &nv
+	}
+	return v
+}
+
+func instPath(ps *PathSum, m map[string]*Val) *PathSum {
+	if len(m) == 0 {
+		return ps
+	}
+	np := *ps
+	np.Conds = make([]Cond, len(ps.Conds))
+	for i, c := range ps.Conds {
+		nc := c
+		nc.V = substVal(c.V, m)
+		np.Conds[i] = nc
+	}
+	np.Events = make([]*Event, len(ps.Events))
+	for i, e := range ps.Events {
+		ne := *e
+		if len(e.Args) > 0 {
+			ne.Args = make([]*Val, len(e.Args))
+			for j, a := range e.Args {
+				ne.Args[j] = substVal(a, m)
+			}
+		}
+		ne.Val = substVal(e.Val, m)
+		if e.Res != nil {
+			// keep pointer identity of results that do not change (tail detection compares pointers)
+			if r := substVal(e.Res, m); r.String() != e.Res.String() {
+				ne.Res = r
+			}
+		}
+		for k, a := range m {
+			if strings.Contains(ne.Loc, k) {
+				ne.Loc = strings.ReplaceAll(ne.Loc, k, a.String())
+			}
+		}
+		np.Events[i] = &ne
+	}
+	np.Ret = make([]*Val, len(ps.Ret))
+	for i, r := range ps.Ret {
+		np.Ret[i] = r
+	}
+	np.Store = map[string]*Val{}
+	for k, v := range ps.Store {
+		np.Store[k] = substVal(v, m)
+	}
+	return &np
+}
+
+// instantiate re-reads a callee outcome with the arguments of one call.
+func (eg *EventGraph) instantiate(o outcome, callee *ssa.Function, args []*Val) outcome {
+	m := map[string]*Val{}
+	for i, prm := range callee.Params {
+		if i < len(args) && args[i] != nil && args[i].String() != "param:"+prm.Name() {
+			// only parameters the callee's summary can mention by name
+			m["param:"+prm.Name()] = args[i]
+		}
+	}
+	if len(m) == 0 {
+		return o
+	}
+	used := false
+	for _, ps := range o.Chain {
+		for _, c := range ps.Conds {
+			for k := range m {
+				if strings.Contains(c.V.String(), k) {
+					used = true
+				}
+			}
+		}
+		for _, e := range ps.Events {
+			for k := range m {
+				if (e.Val != nil && strings.Contains(e.Val.String(), k)) || strings.Contains(e.String(), k) {
+					used = true
+				}
+			}
+		}
+	}
+	if !used {
+		return o
+	}
+	o2 := o
+	o2.Chain = make([]*PathSum, len(o.Chain))
+	for i, ps := range o.Chain {
+		o2.Chain[i] = instPath(ps, m)
+		if ps == o.Path {
+			o2.Path = o2.Chain[i]
+		}
+	}
+	if o2.Kind == "other" && strings.Contains(o2.Err, "non-constant event") {
+		for _, e := range o2.Path.Events {
+			if e.Kind == "call" && e.Fn == eg.Emit && len(e.Args) >= 2 {
+				if name := eg.eventName(e.Args[1]); name != "" {
+					o2.Kind, o2.Event, o2.Err = "emit", name, ""
+				}
+			}
+		}
+	}
+	return o2
 }
